@@ -62,6 +62,8 @@ type Case struct {
 	Res  uint64    `json:"res,omitempty"` // btc: number of resources (resource of a transfer = nonce mod Res; 0 means 2)
 	Init []InitEnt `json:"init,omitempty"`
 	Ops  []Op      `json:"ops"`
+	// concurrent Bitcoin history over one shared prop store (conc.go); Ops is unused then
+	Conc *ConcCase `json:"conc,omitempty"`
 }
 
 type OpObs struct {
@@ -74,6 +76,10 @@ type OpObs struct {
 type Obs struct {
 	Universe []K     `json:"universe"`
 	Ops      []OpObs `json:"ops"`
+	// concurrent case: one history per goroutine (its universe: own ++ shared), calls that reached the backend
+	// with a key that is not a proposal key (informative)
+	Threads [][]OpObs `json:"threads,omitempty"`
+	Stray   int       `json:"stray,omitempty"`
 }
 
 // ---- store with per-position faults around the real PropStore -----------------------------------------
@@ -137,6 +143,11 @@ type world struct {
 	sub   *subexec.Executor
 	btc   *btcexec.Executor
 	live  []K // transfers of the live signing sessions, as selected by the implementation
+	// one goroutine of a concurrent case (conc.go)
+	hook   bool             // deliveries go to proposalsForExecution through the hook (the executor is shared)
+	shared bool             // the executor is shared with other goroutines: never replaced
+	inline bool             // calls are made on the calling goroutine (the coordinator bounds the wait)
+	snapFn func(K) string   // reads a status from the backend, bypassing the PropStore
 }
 
 func (w *world) newExecutor() {
@@ -186,7 +197,12 @@ func classify(err error, rec interface{}) (uint64, string) {
 	return 3, err.Error()
 }
 
-func execute(f func() error) (err error, rec interface{}) {
+func (w *world) execute(f func() error) (err error, rec interface{}) {
+	if w.inline {
+		defer func() { rec = recover() }()
+		err = f()
+		return
+	}
 	done := make(chan struct{})
 	go func() {
 		defer close(done)
@@ -224,9 +240,9 @@ func (w *world) deliver(d []Ent) OpObs {
 			}
 		}
 		if w.c.Dest == "evm" {
-			err, rec = execute(func() error { return w.evm.Execute(ps) })
+			err, rec = w.execute(func() error { return w.evm.Execute(ps) })
 		} else {
-			err, rec = execute(func() error { return w.sub.Execute(ps) })
+			err, rec = w.execute(func() error { return w.sub.Execute(ps) })
 		}
 		// canonical order of the (concurrent) per-batch hash calls: by delivery position of the first member
 		order := make([]int, len(w.chain.HashCalls))
@@ -250,7 +266,31 @@ func (w *world) deliver(d []Ent) OpObs {
 			w.fs.faults[i] = e.F
 		}
 		w.fs.pos, w.fs.armed = -1, true
-		err, rec = execute(func() error { return w.btc.Execute(ps) })
+		if w.hook && len(ps) > 0 {
+			// the selection step itself; what it returns is what Execute goes on to build transactions from,
+			// one per resource (an empty delivery: Execute panics before it gets there)
+			var sel []*btcexec.BtcTransferProposal
+			err, rec = w.execute(func() error {
+				var e error
+				sel, e = w.btc.VerifProposalsForExecution(ps, "mid")
+				return e
+			})
+			w.fs.armed = false
+			if err == nil && rec == nil {
+				byRes := map[[32]byte]int{}
+				for _, p := range sel {
+					i, ok := byRes[p.Data.ResourceId]
+					if !ok {
+						i = len(o.Sets)
+						byRes[p.Data.ResourceId] = i
+						o.Sets = append(o.Sets, nil)
+					}
+					o.Sets[i] = append(o.Sets[i], K{p.Source, p.Data.DepositNonce})
+				}
+			}
+			break
+		}
+		err, rec = w.execute(func() error { return w.btc.Execute(ps) })
 		w.fs.armed = false
 		pos := func(k fk.Key) int {
 			for i, e := range d {
@@ -276,7 +316,7 @@ func (w *world) deliver(d []Ent) OpObs {
 	for _, s := range o.Sets {
 		w.live = append(w.live, s...)
 	}
-	if w.c.Dest == "btc" && (o.Err != 0) {
+	if w.c.Dest == "btc" && (o.Err != 0) && !w.shared {
 		// proposalsForExecution leaves propMutex locked on its error returns (defect tracked under C17);
 		// so that the history can go on, the next op meets a fresh Executor over the same store
 		w.newExecutor()
@@ -354,10 +394,20 @@ func (w *world) release(b []K) {
 	}
 }
 
+// restart: the in-memory sessions are lost, the store is not
+func (w *world) restart() {
+	w.live = nil
+	if !w.shared {
+		w.newExecutor()
+	}
+}
+
 func (w *world) snapshot(uni []K) []string {
 	out := make([]string, len(uni))
 	for i, k := range uni {
-		if w.c.Dest == "btc" {
+		if w.snapFn != nil {
+			out[i] = w.snapFn(k)
+		} else if w.c.Dest == "btc" {
 			st, err := w.fs.inner.PropStatus(k.S, destDomain, k.N)
 			if err != nil {
 				panic(err)
@@ -402,6 +452,9 @@ func universe(c Case) []K {
 }
 
 func run(c Case) Obs {
+	if c.Conc != nil {
+		return runConc(c)
+	}
 	w := &world{c: c, chain: fk.NewChain(), kv: fk.NewKV(), up: &fk.Uploader{}}
 	w.fs = &faultyStore{inner: store.NewPropStore(w.kv)}
 	for _, e := range c.Init {
@@ -425,8 +478,7 @@ func run(c Case) Obs {
 		case "fail":
 			w.finish(op.B, false)
 		case "restart":
-			w.live = nil
-			w.newExecutor()
+			w.restart()
 		case "release":
 			w.release(op.B)
 		default:
@@ -853,6 +905,8 @@ func gen(r *vgen.Rng, tier string) []Case {
 	for i := 0; i < 2*nh; i++ {
 		out = append(out, genOverlap(r))
 	}
+	// 5. Bitcoin: goroutines (executor deliveries, retry requests) on one shared prop store
+	out = append(out, genConcCases(r, tier)...)
 	return out
 }
 
@@ -875,9 +929,16 @@ func coqStatus(s string) string {
 }
 
 func coq(c Case, o Obs) string {
+	if c.Conc != nil {
+		return coqConc(c, o)
+	}
 	dest := map[string]string{"evm": "EVM", "sub": "SUB", "btc": "BTC"}[c.Dest]
 	init := vgen.ListOf(c.Init, func(e InitEnt) string { return vgen.Pair(coqK(e.K), coqStatus(e.St)) })
-	ops := vgen.ListOf(c.Ops, func(op Op) string {
+	return "Hist " + dest + " " + init + " " + vgen.ListOf(o.Universe, coqK) + " " + coqOps(c.Ops) + " " + coqObsList(o.Ops)
+}
+
+func coqOps(ops []Op) string {
+	return vgen.ListOf(ops, func(op Op) string {
 		switch op.Op {
 		case "deliver":
 			return "Deliver " + vgen.ListOf(op.D, func(e Ent) string {
@@ -892,12 +953,14 @@ func coq(c Case, o Obs) string {
 		}
 		return "Restart"
 	})
-	obs := vgen.ListOf(o.Ops, func(x OpObs) string {
+}
+
+func coqObsList(os []OpObs) string {
+	return vgen.ListOf(os, func(x OpObs) string {
 		return "mkobs " + vgen.N(x.Err) + " " +
 			vgen.ListOf(x.Sets, func(s []K) string { return vgen.ListOf(s, coqK) }) + " " +
 			vgen.ListOf(x.Snap, coqStatus)
 	})
-	return "Hist " + dest + " " + init + " " + vgen.ListOf(o.Universe, coqK) + " " + ops + " " + obs
 }
 
 func main() {
@@ -914,9 +977,17 @@ func main() {
 			for _, op := range c.Ops {
 				n += len(op.D)
 			}
+			if c.Conc != nil {
+				for _, th := range c.Conc.Threads {
+					for _, op := range th.Ops {
+						n += len(op.D) + len(op.B)
+					}
+				}
+				return len(c.Conc.Threads) >= 2 && n >= 2
+			}
 			return n >= 2
 		},
-		Rule:      "per destination kind: one delivery with every assignment of executed / not executed / lookup error to 0..5 proposals (BTC: every assignment of the four recorded statuses to 0..4, every status x store fault for 1..2), a delivery repeating a transfer, random histories of 2..30 ops (deliveries with faults, successful / failed ends of live sessions, restarts, Bitcoin: retry requests releasing pending transfers) over 2..6 transfers, and for Bitcoin overlapping sessions: completely for a delivery of 2..4 transfers in one transaction, every non-empty released subset, the second session over it in the same or the reversed order, both end orders and all outcomes, plus random ones (one or two resources, 3..6 transfers, 1..3 release/deliver rounds, second deliveries mixing released and new transfers at any position, live sessions ending in any order); distinct = distinct input JSON; non-trivial = at least two proposals delivered in the case",
+		Rule:      "per destination kind: one delivery with every assignment of executed / not executed / lookup error to 0..5 proposals (BTC: every assignment of the four recorded statuses to 0..4, every status x store fault for 1..2), a delivery repeating a transfer, random histories of 2..30 ops (deliveries with faults, successful / failed ends of live sessions, restarts, Bitcoin: retry requests releasing pending transfers) over 2..6 transfers, and for Bitcoin overlapping sessions: completely for a delivery of 2..4 transfers in one transaction, every non-empty released subset, the second session over it in the same or the reversed order, both end orders and all outcomes, plus random ones (one or two resources, 3..6 transfers, 1..3 release/deliver rounds, second deliveries mixing released and new transfers at any position, live sessions ending in any order), and concurrent cases (kind btc/conc): 1..3 executor goroutines and 1..4 retry goroutines on ONE shared real PropStore over a backend that yields before it looks at key and value, each goroutine on 2..5 own transfers (any initial status) plus 1..3 shared executed ones, 3..12 ops per goroutine (deliveries mixing own and shared transfers, ends of live sessions, releases, restarts; store faults only where a goroutine has its own Executor), GOMAXPROCS 1/2/4/16; distinct = distinct input JSON; non-trivial = at least two proposals delivered in the case",
 		ShardSize: 300,
 	})
 }
